@@ -47,9 +47,15 @@ impl MultiRecordLog {
         debug!("loading wal");
         loop {
             let file_number = record_reader.read().current_file().clone();
-            let Ok(record) = record_reader.read_record::<MultiPlexedRecord>() else {
-                warn!("Detected corrupted record: some data may have been lost");
-                continue;
+            let record = match record_reader.read_record::<MultiPlexedRecord>() {
+                Ok(record) => record,
+                Err(ReadRecordError::Corruption) => {
+                    warn!("Detected corrupted record: some data may have been lost");
+                    continue;
+                }
+                // io errors are non-recoverable: skipping over them would either retry the
+                // failing read or open for ever, or silently drop part of the log.
+                Err(io_error @ ReadRecordError::IoError(_)) => return Err(io_error),
             };
             if let Some(record) = record {
                 match record {
